@@ -700,6 +700,33 @@ Section Draws.
     rewrite (pos_by_weight d H1). destruct ((dq d =? q) && (0 <? dw d)); simpl; auto.
   Qed.
 
+  (* the whole clause at the level of weights, outside F18: served records are
+     distinct declared records of the family with a positive weight, and there
+     are exactly min(max, number of positive-weight candidates) of them *)
+  Theorem bounded_sound_outside_F18 : forall (lv : list drow) max q,
+    (1 <= max)%Z -> q = TypeA \/ q = TypeAAAA -> NoDup (map dpay lv) ->
+    Forall in_open_range lv ->
+    exists res, records kpos (feed klt max (map to_row lv)) q = Ok res
+      /\ (forall it, In it res -> exists d, In d lv /\ dq d = q /\ dpay d = snd it /\ 0 < dw d)
+      /\ NoDup (map snd res)
+      /\ length res = Nat.min (Z.to_nat max)
+                        (length (filter (fun d : drow => (dq d =? q) && (0 <? dw d)) lv)).
+  Proof.
+    intros lv max q Hmax Hq Hnd Hall.
+    destruct (bounded_sound K klt kpos A klt_irrefl klt_trans kzero_below (map to_row lv) max q Hmax Hq)
+      as (res & Hrec & Hsound & Hnodup & Hpos & Hlen).
+    { rewrite map_rpay_to_row; auto. }
+    destruct (count_by_weight_outside_F18 lv max q Hmax Hq Hnd Hall) as (res' & Hrec' & Hlen').
+    rewrite Hrec in Hrec'. inversion Hrec'; subst res'.
+    exists res. repeat split; auto.
+    intros it Hit. destruct (Hsound it Hit) as (r & Hr & Hrq & Hk & Hp).
+    apply in_map_iff in Hr. destruct Hr as (d & <- & Hd).
+    exists d. repeat split; auto.
+    apply N.ltb_lt. rewrite <- (pos_by_weight d).
+    - simpl in Hk. rewrite Hk. apply Hpos; auto.
+    - rewrite Forall_forall in Hall. apply Hall; auto.
+  Qed.
+
   (* F18, second half: the draw 0 gives a positive-weight record the key 0:
      the only candidate is dropped, the answer is empty *)
   Theorem positive_weight_dropped_refuted : forall a : A,
